@@ -401,6 +401,18 @@ func c04Inert(out *evid.Out, viol func(string, string, map[string]interface{})) 
 	tc := touch{&cnt}
 	hookRec := recObj{tc}
 	wr := recObj{tc}
+	// the package-level callbacks count too: a field method on a disabled event must not consult the clock, the error /
+	// interface / caller / level marshalers or the stack marshaler
+	oTS, oEM, oES, oIM, oCM, oLM := zerolog.TimestampFunc, zerolog.ErrorMarshalFunc, zerolog.ErrorStackMarshaler, zerolog.InterfaceMarshalFunc, zerolog.CallerMarshalFunc, zerolog.LevelFieldMarshalFunc
+	defer func() {
+		zerolog.TimestampFunc, zerolog.ErrorMarshalFunc, zerolog.ErrorStackMarshaler, zerolog.InterfaceMarshalFunc, zerolog.CallerMarshalFunc, zerolog.LevelFieldMarshalFunc = oTS, oEM, oES, oIM, oCM, oLM
+	}()
+	zerolog.TimestampFunc = func() time.Time { cnt++; return time.Unix(2, 0) }
+	zerolog.ErrorMarshalFunc = func(err error) interface{} { cnt++; return err }
+	zerolog.ErrorStackMarshaler = func(err error) interface{} { cnt++; return "stk" }
+	zerolog.InterfaceMarshalFunc = func(v interface{}) ([]byte, error) { cnt++; return []byte("0"), nil }
+	zerolog.CallerMarshalFunc = func(pc uintptr, file string, line int) string { cnt++; return "c" }
+	zerolog.LevelFieldMarshalFunc = func(l zerolog.Level) string { cnt++; return "l" }
 	mk := []struct {
 		name string
 		ev   func() *zerolog.Event
